@@ -5,7 +5,7 @@ property statements, not from the code.  Every function is pure and total and
 is *also* translated into SMT by pyvc (see pyvc/specs.py), so it is written in
 the small expression subset the translator accepts.
 """
-from pyvc.dsl import spec, opaque
+from pyvc.dsl import spec, opaque, is_lib
 
 
 # ----------------------------------------------------------------- integers
@@ -546,3 +546,57 @@ def ADVERTISED(alg: str) -> bool:
 def HASHLIB_GUARANTEED(alg: str) -> bool:
     import hashlib
     return alg in hashlib.algorithms_guaranteed
+
+
+# ------------------------------------------------------------------ calendar objects (C16)
+# datetime.time / datetime.date values are opaque objects; what the logical-type converters read from them
+# are these observers (executable: the attribute itself).  Ranges are facts about every such object.
+@spec
+def is_time(x: object) -> bool:
+    return is_lib(x, "datetime.time")
+
+
+@spec
+def is_date(x: object) -> bool:
+    """a date that is not a datetime"""
+    return is_lib(x, "datetime.date")
+
+
+@spec
+def is_datetime(x: object) -> bool:
+    return is_lib(x, "datetime.datetime")
+
+
+@opaque
+def tod_hour(x: object) -> int:
+    return x.hour
+
+
+@opaque
+def tod_minute(x: object) -> int:
+    return x.minute
+
+
+@opaque
+def tod_second(x: object) -> int:
+    return x.second
+
+
+@opaque
+def tod_micro(x: object) -> int:
+    return x.microsecond
+
+
+@opaque
+def date_ordinal(x: object) -> int:
+    """proleptic Gregorian ordinal: 0001-01-01 is day 1 (so 1970-01-01 is day 719163)"""
+    return x.toordinal()
+
+
+@axiom("f_idiv")
+def ax_idiv_trunc(a: int, b: int) -> bool:
+    """int(a / b) on integers well below 2**53: the correctly rounded quotient truncates to the integer
+    quotient (a = k*b - r with r >= 1 is at least 1/b below k, the rounding error is at most k * 2**-53,
+    and k*b < a + b < 2**53)"""
+    return (not (0 <= a < 4503599627370496 and 0 < b < 4503599627370496)
+            or (f_trunc(f_idiv(a, b)) == a // b and f_isfinite(f_idiv(a, b))))
